@@ -40,12 +40,12 @@ def sipWithArith (p : Program) : Bool :=
   p.any (fun r => r.posAtoms.length ≥ 2 && !selfRec p r.hrel && r.cmps.any (fun c => exprIsArith c.2.1 || exprIsArith c.2.2))
 
 def classify (p : Program) : String :=
-  if unionWithJoin p then "union_with_join_heads"
-  else if (clausesOf p (answeredRel p)).length ≥ 2 || queryRel p != answeredRel p then "last_head_multi_clause"
+  if (clausesOf p (answeredRel p)).length ≥ 2 || queryRel p != answeredRel p then "last_head_multi_clause"
   else if sipWithArith p then "sip_rule_with_arithmetic_comparison"
   else if hasRepeatedVarAtom p then "repeated_variable_in_atom"
   else if p.any (fun r => r.hasAgg) && sipDropsColumns p then "sip_drops_columns_under_aggregate"
   else if sipDropsColumns p then "sip_non_variable_column"
+  else if unionWithJoin p then "multi_clause_join_head"
   else "unclassified"
 
 /-- which switches, flipped alone from all-off, change the answer (from the masks that differ) -/
